@@ -64,27 +64,45 @@ def make_config(r, kind):
             cfg["inv_mass"] = M.tolist()
             cfg["bounds"] = None if r.random() < 0.7 else cfg["bounds"]
         cfg["T"] = r.choice([1.0, 2.0, 4.0])
+        # keep the leapfrog stable: eps^2 * max(inv_mass) * 2 max(a) / T <= 1/2
+        im = cfg.get("inv_mass", 1.0)
+        im_max = float(np.max(np.abs(np.asarray(im, dtype=float)))) * (1.5 if mk == "matrix" else 1.0)
+        curv = 2 * float(max(a)) * (1.0 + 1.0 * bool(c)) / cfg["T"]
+        while cfg["eps"] ** 2 * im_max * curv > 0.5:
+            cfg["eps"] /= 2
     if kind == "ensemble":
         nw = n + 1 + r.randint(0, 3)
         cfg["alpha"] = r.choice([2.0, 2.0, 8.0])
-        for _ in range(50):
-            sp = [[dy(r, -3, 3, 4) for _ in range(n)] for _ in range(nw)]
-            if cfg["bounds"]:
-                lo, hi = cfg["bounds"]
-                sp = [[min(max(v, lo[i]), hi[i]) for i, v in enumerate(row)] for row in sp]
-            arr = np.array(sp)
-            ok = True
+        def valid(sp):
+            arr = np.array(sp, dtype=float)
             try:
                 if n == 1:
-                    ok = np.var(arr) > 0
-                else:
-                    cv = np.cov(arr.T)
-                    sd = np.sqrt(np.diag(cv))
-                    ok = (sd > 0).all() and not (abs(np.triu(cv / (sd[:, None] * sd[None, :]), k=1)) > 0.99).any()
+                    return bool(np.var(arr) > 0)
+                cv = np.cov(arr.T)
+                sd = np.sqrt(np.diag(cv))
+                if not (sd > 0).all():
+                    return False
+                return not (abs(np.triu(cv / (sd[:, None] * sd[None, :]), k=1)) > 0.99).any()
             except Exception:
-                ok = False
-            if ok:
+                return False
+
+        def draw():
+            if cfg["bounds"]:
+                lo, hi = cfg["bounds"]
+                # dyadic points strictly inside the box (never clipped onto a wall)
+                return [[lo[i] + (hi[i] - lo[i]) * r.randint(1, 63) / 64.0 for i in range(n)] for _ in range(nw)]
+            return [[dy(r, -3, 3, 4) for _ in range(n)] for _ in range(nw)]
+
+        sp = draw()
+        for _ in range(200):
+            if valid(sp):
                 break
+            sp = draw()
+        else:
+            cfg["bounds"] = None
+            sp = [[float(i * (j + 2) % (nw + 1)) + 0.25 * j for j in range(n)] for i in range(nw)]
+            while not valid(sp):
+                sp = [[dy(r, -3, 3, 4) for _ in range(n)] for _ in range(nw)]
         cfg["positions"] = sp
         cfg["T"] = 1.0
     return cfg
